@@ -22,7 +22,7 @@ def main():
         r = subprocess.run(["git", "-C", wt, "apply", patch], capture_output=True, text=True)
         if r.returncode != 0:
             print("PATCH DOES NOT APPLY:", r.stderr.strip()[:300]); return 2
-        env = dict(os.environ, PV_REPO=wt, PV_EVIDENCE_DIR=os.path.join(out, "evidence"), PV_REPLAY_DIR=os.path.join(out, "replays"))
+        env = dict(os.environ, PV_REPO=wt, PV_EVIDENCE_DIR=os.path.join(out, "evidence"), PV_REPLAY_DIR=os.path.join(out, "replays"), PV_GEN_DIR=os.path.join(out, "gen"))
         procs = {pid: subprocess.Popen([os.path.join(here, "check"), pid, "--tier", tier], env=env, stdout=subprocess.PIPE, stderr=subprocess.STDOUT, text=True, cwd=here) for pid in pids}
         rc_all = 0
         for pid, p in procs.items():
